@@ -559,8 +559,32 @@ func ruleC06FinalPattern(c *Checker) {
 	// globals matched in the parser and in the sniffing function
 	pat := map[*ssa.Global]bool{}
 	users := []*ssa.Function{parse}
-	if f := p.Fn(addrPkg, "looksLikeFinalRegistrySource"); f != nil {
-		users = append(users, f)
+	// the sniffing function, by role: the bool function of the package (other than the parser) that applies a
+	// package-level pattern and hands a string on to a registry-source classifier
+	var sniff *ssa.Function
+	for _, f := range p.Funcs {
+		if f == parse || f.Package() == nil || f.Package().Pkg.Path() != p.PkgPath(addrPkg) || f.Signature.Recv() != nil || f.Parent() != nil {
+			continue
+		}
+		if f.Signature.Results().Len() != 1 || !isBoolType(f.Signature.Results().At(0).Type()) || len(f.Params) != 1 || !isStringType(f.Params[0].Type()) {
+			continue
+		}
+		usesPattern := false
+		for _, ci := range callsIn(f) {
+			if o := calleeObj(ci); o != nil && recvTypeName(o) == "Regexp" && objPkgPath(o) == "regexp" {
+				if ld, ok := canon(ci.Common().Args[0]).(*ssa.UnOp); ok {
+					if _, ok := ld.X.(*ssa.Global); ok {
+						usesPattern = true
+					}
+				}
+			}
+		}
+		if usesPattern && (sniff == nil || f.Pos() < sniff.Pos()) {
+			sniff = f
+		}
+	}
+	if sniff != nil {
+		users = append(users, sniff)
 	}
 	for _, fn := range users {
 		found := false
